@@ -1,10 +1,10 @@
 #!/bin/bash
-# tools/sweep.sh <tier> <seed...> — run every check on the unchanged tree for the given seeds; print a summary line per run
+# tools/sweep.sh <tier> <seed...> [env PROPS="C12 C13"] — run every check on the unchanged tree for the given seeds; print a summary line per run
 tier=$1; shift
 cd "$(dirname "$0")/.."
 bin/check setup >/dev/null 2>&1
 for seed in "$@"; do
-  for p in C01 C02 C03 C04 C05 C06 C07 C08 C09 C10 C11 C12 C13 C14 C15 C16; do
+  for p in ${PROPS:-C01 C02 C03 C04 C05 C06 C07 C08 C09 C10 C11 C12 C13 C14 C15 C16}; do
     start=$(date +%s)
     out=$(VERIF_SEED=$seed bin/check $p --tier $tier 2>&1); rc=$?
     viol=$(echo "$out" | grep -c '^VIOLATION')
